@@ -620,14 +620,25 @@ class RealNode(object):
         from collada import scene
         self.c = c
         depth = c['depth']
+        from vlib import prelude
+        prelude.touch()
         if c['start'] == 'new':
             self.doc = collada.Collada()
-            self.node = scene.Node('target', children=[scene.Node('leaf')], transforms=[make_tf(s) for s in c['tfs']])
+            # another node of the same scene, made without a transform list and given one transform afterwards
+            sib = scene.Node('sib')
+            sib.transforms.append(scene.TranslateTransform(1.0, 0.0, 0.0))
+            leaf = scene.Node('leaf')
+            if c['tfs']:
+                self.node = scene.Node('target', children=[leaf], transforms=[make_tf(s) for s in c['tfs']])
+            else:       # a node that starts without transforms is usually made without the argument
+                self.node = scene.Node('target', children=[leaf])
+            self.bystanders = [(leaf, 0), (sib, None)]
             top = self.node
             for d in range(depth):
                 top = scene.Node('wrap%d' % d, children=[top], transforms=[scene.TranslateTransform(1.0, 0.0, 0.0)])
+                self.bystanders.append((top, 1))
             self.root = top
-            sc = scene.Scene('vs', [top])
+            sc = scene.Scene('vs', [top, sib])
             self.doc.scenes.append(sc)
             self.doc.scene = sc
         else:
@@ -647,10 +658,27 @@ class RealNode(object):
             self.doc = load_doc(xml)
             self.root = self.doc.scene.nodes[0]
             n = self.root
+            self.bystanders = []
             for d in range(depth):
+                self.bystanders.append((n, 1))
                 n = [ch for ch in n.children if isinstance(ch, scene.Node)][0]
             self.node = n
+            self.bystanders += [(ch, 1) for ch in n.children if isinstance(ch, scene.Node)]
             self.nkids = nk
+
+    def others(self):
+        """the nodes around the target, whose transform lists no operation touches: None, or what is wrong with one of them"""
+        for n, k in self.bystanders:
+            if k is None:       # the sibling: one transform, its matrix is recomputed by a save that reaches it
+                if len(n.transforms) != 1:
+                    return 'node %r, which was given one transform and then left alone, has %d' % (n.id, len(n.transforms))
+                continue
+            want = [[1.0, 0.0, 0.0, 1.0 if k else 0.0], [0.0, 1.0, 0.0, 0.0], [0.0, 0.0, 1.0, 0.0], [0.0, 0.0, 0.0, 1.0]]
+            if len(n.transforms) != k:
+                return 'node %r, which no operation touched, has %d transforms (it was made with %d)' % (n.id, len(n.transforms), k)
+            if n.matrix.tolist() != want:
+                return 'node %r, which no operation touched, has the matrix %s (its %d transforms give %s)' % (n.id, n.matrix.tolist(), k, want)
+        return None
 
     def observe(self):
         """('ok n=<len>', matrix Fractions, oracle verdict)"""
@@ -790,6 +818,9 @@ def run_node(c):
     specs = model_specs(c)
 
     def observed(step, label):
+        other = rn.others()
+        if other:
+            return (step, 'bystander', 'after %s: %s' % (label, other))
         text, m, mats = rn.observe()
         if m is None or any(x is None for x in mats):
             answers.append((text, None, None))
